@@ -371,6 +371,12 @@ pub fn gen(seed: u64, thorough: bool) -> Vec<String> {
             out.push(format!("R {f} {sw} {sh} {x} {y} {w} {h} {}", rng.next() % 1000));
         }
         // not inside the surface: refused
+        // empty rects: no pixel is addressed, the whole surface must still be consumed
+        for &(sw, sh) in &[(5u32, 5u32), (12, 20), (7, 13), (6, 5), (16, 16)] {
+            for &(x, y, w, h) in &[(0u32, 0u32, 0u32, 0u32), (1, 2, 0, 3), (2, 1, 3, 0), (5, 5, 0, 0)] {
+                out.push(format!("R {f} {sw} {sh} {} {} {w} {h} {}", x.min(sw), y.min(sh), rng.next() % 1000));
+            }
+        }
         out.push(format!("R {f} 8 8 4 4 5 4 {}", rng.next() % 1000));
         out.push(format!("R {f} 8 8 0 7 8 2 {}", rng.next() % 1000));
     }
@@ -672,7 +678,8 @@ fn run_rect(t: &[&str]) -> Option<(String, Vec<String>)> {
     let (sw, sh) = (p_u32(t[2])?, p_u32(t[3])?);
     let (x, y, w, h) = (p_u32(t[4])?, p_u32(t[5])?, p_u32(t[6])?, p_u32(t[7])?);
     let seed = p_u64(t[8])?;
-    if sw == 0 || sh == 0 || sw > 4096 || sh > 4096 || w == 0 || h == 0 || w > 4096 || h > 4096 {
+    // empty rects (w == 0 or h == 0) are legal: nothing is decoded, the surface is still consumed (seed C19j)
+    if sw == 0 || sh == 0 || sw > 4096 || sh > 4096 || w > 4096 || h > 4096 {
         return None;
     }
     let mut rng = Rng::new(seed ^ 0x4C19);
